@@ -13,9 +13,11 @@ import (
 	"sort"
 	"strings"
 	"sync"
+	"sync/atomic"
 
 	"verif/internal/corpus"
 	"verif/internal/gram"
+	"verif/internal/harness"
 	"verif/internal/report"
 )
 
@@ -47,6 +49,10 @@ type cliResult struct {
 	out    []byte
 }
 
+// externalKills counts peg processes killed by a SIGKILL this check did not send (see harness.Guard.ExternalKill);
+// main() turns a non-zero count into an inconclusive run.
+var externalKills atomic.Int64
+
 // runPeg runs the real peg binary in dir on grammar text.
 func runPeg(peg, dir, text string, opts ...string) cliResult {
 	os.MkdirAll(dir, 0o755)
@@ -57,7 +63,13 @@ func runPeg(peg, dir, text string, opts ...string) cliResult {
 	cmd.Dir = dir
 	var se bytes.Buffer
 	cmd.Stderr = &se
-	err := cmd.Run()
+	guard, err := harness.RunGuarded(cmd, 0, 0)
+	if guard.MemKilled {
+		se.WriteString(fmt.Sprintf("\nverif: peg exceeded the memory limit of %d MB and was killed (runaway allocation?)\n", harness.DefaultMemMB))
+	}
+	if guard.ExternalKill(0) {
+		externalKills.Add(1)
+	}
 	res := cliResult{stderr: se.String()}
 	if err != nil {
 		res.exit = -1
